@@ -130,6 +130,15 @@ def run_case(case):
     except Exception as e:  # noqa
         out.append(("C06:value-raised:%s:%s" % (kind, type(e).__name__), "%s: .value raised %r" % (where, e)))
         raised = e
+    # which of the two faults: a handler written for garbled answers (except ResponseError) does not see a missing
+    # one and vice versa - "missing" and "garbled" are told apart by the exception
+    if isinstance(raised, faults):
+        if oc is None and (not isinstance(raised, exc.MissingResponse) or isinstance(raised, exc.ResponseError)):
+            out.append(("C06:missing-answer-reported-as-garbled", "%s: .value raised %r (%s), which an 'except ResponseError' handler catches"
+                        % (where, raised, " -> ".join(c.__name__ for c in type(raised).__mro__[:4]))))
+        if oc is not None and not clean and (not isinstance(raised, exc.ResponseError) or isinstance(raised, exc.MissingResponse)):
+            out.append(("C06:garbled-answer-reported-as-missing", "%s: .value raised %r (%s), which an 'except MissingResponse' handler catches"
+                        % (where, raised, " -> ".join(c.__name__ for c in type(raised).__mro__[:4]))))
     if kind == "yesno":
         if raised is not None or val is not (oc is not None):
             out.append(("C06:yesno", "%s: value %r raised %r, expected %r" % (where, val, raised, oc is not None)))
@@ -353,7 +362,8 @@ def base_of_str(r_cls):
 BAD_ARGS = ["int", "str", "bytes", "frame8", "forward16", "list", "object", "float", "true", "response",
             "response-none", "response-same-class", "tuple", "backward-class",
             "repr-NO_RESPONSE", "repr-None", "repr-BackwardFrame", "equals-everything", "falsy-object",
-            "legacy-tridonic-marker", "legacy-unipi-marker", "assign-forward16", "assign-int", "assign-frame8", "assign-response"]
+            "legacy-tridonic-marker", "legacy-unipi-marker", "own-enum-member", "foreign-intenum", "plain-enum", "intflag",
+            "int-subclass", "zero", "false", "empty-bytes", "empty-str", "assign-forward16", "assign-int", "assign-frame8", "assign-response"]
 
 
 class _Repr:
@@ -418,6 +428,24 @@ def case_ctor(r_cls, case):
                "repr-BackwardFrame": lambda: _Repr("BackwardFrame(5)"), "equals-everything": _EqualsEverything,
                "falsy-object": _Falsy, "legacy-tridonic-marker": lambda: _legacy_marker("tridonic"),
                "legacy-unipi-marker": lambda: _legacy_marker("unipi")}
+    import enum
+    import http
+
+    class _Colour(enum.Enum):
+        RED = 1
+
+    class _Flags(enum.IntFlag):
+        A = 1
+
+    class _MyInt(int):
+        pass
+    en = getattr(r_cls, "enumerator", None)
+    special.update({
+        # the value an enumerated answer decodes TO is not a frame either (own enumerator, or any other IntEnum)
+        "own-enum-member": lambda: (list(en)[0] if en is not None else http.HTTPStatus.OK),
+        "foreign-intenum": lambda: http.HTTPStatus.OK, "plain-enum": lambda: _Colour.RED, "intflag": lambda: _Flags.A,
+        "int-subclass": lambda: _MyInt(5), "zero": lambda: 0, "false": lambda: False, "empty-bytes": lambda: b"",
+        "empty-str": lambda: ""})
     if case["arg"] in special:
         arg = special[case["arg"]]()
         try:
